@@ -18,7 +18,13 @@ import (
 	. "vh/kit"
 )
 
-func main() { Main("c19", runC19) }
+func main() {
+	if spec := os.Getenv(concEnv); spec != "" {
+		concChild(spec) // the re-executed child of the concurrency family
+		return
+	}
+	Main("c19", runC19)
+}
 
 type histOut struct {
 	id      int64
@@ -41,7 +47,7 @@ func runC19(a *Args) error {
 		"the artifact manifest struct of registry/internal/artifactspec is mirrored field by field in the harness (same JSON tags) to ask encoding/json how a content reads as an artifact manifest",
 		"oras-go v2.5.0 oci.Store / graph.Memory / content.FetchAll / PackManifest behave as modelled from their source (C19_Model.v header); every history checks it against the real store",
 		"error classes are recognised by errors.Is / errors.As and by the fixed message prefixes of registry/repository.go",
-		"no deletion and no concurrent writer during a history",
+		"no deletion and no concurrent writer during a sequential history; the concurrency family (conc.go) shares one Repository between 8 goroutines signing, listing and fetching DIFFERENT subjects, in a child process",
 		"frame check on every call of every history: the annotations map, envelope bytes and subject descriptor handed to PushSignature and the descriptors handed to ListSignatures / FetchSignatureBlob (with their Annotations maps, URLs, Platform) are deep-snapshotted before and compared after the call; in every second history the same map / descriptor objects are handed to consecutive calls; the descriptors and bytes the library hands out are scribbled over by the caller after each listing / fetch",
 		"extra Go-side check, outside registry/repository.go: the layout is re-opened with registry.NewOCIRepository and every listing compared with the live one; oras-go's oci.New refuses to re-open a layout in which a stored manifest is referenced (as a subject) with another size, or a manifest-typed reference carries an invalid digest string (histogram reopen: layout-not-reopenable): counted and reported, not judged a violation of C19",
 	}
@@ -49,14 +55,7 @@ func runC19(a *Args) error {
 	if a.Tier == "thorough" {
 		n = 24000
 	}
-	base := os.TempDir()
-	if st, err := os.Stat("/dev/shm"); err == nil && st.IsDir() {
-		if f, err := os.CreateTemp("/dev/shm", "vh-c19-probe"); err == nil {
-			f.Close()
-			os.Remove(f.Name())
-			base = "/dev/shm"
-		}
-	}
+	base := tmpBase()
 	root := NewRng(a.Seed)
 	outs := make([]*histOut, n)
 	workers := runtime.NumCPU()
@@ -101,6 +100,7 @@ func runC19(a *Args) error {
 			w.ImplViolation(o.id, what, o.desc, parts[0])
 		}
 	}
+	runConc(a, w, int64(n))
 	return w.Close()
 }
 
